@@ -343,6 +343,39 @@ def gen_sheared_pair(rng, nprng, dim, Nmax, fixed=None):
     return a, b, U
 
 
+def gen_manyjumps(rng, nprng, dim, Nmax, nmin=12):
+    """a low-symmetry Bravais (one-site) crystal with a cutoff admitting at least nmin jump types (more than ten, so that the
+    numbered HDF5 sub-groups of a saved calculator do not sort alphabetically in numerical order), unequal rates"""
+    from onsager import crystal
+    if dim == 3:
+        latt = np.array([[1., 0, 0], [rng.choice([.2, .15]), rng.choice([1.1, 1.15]), 0], [rng.choice([.3, .25]), .15, rng.choice([1.3, 1.25])]]).T
+    else:
+        latt = np.array([[1., 0], [rng.choice([.2, .3, .35]), rng.choice([1.1, 1.2, 1.3])]]).T
+    crys = crystal.Crystal(latt, [[np.zeros(dim)]])
+    sh = gen.shells(crys, 0, nmax=4)
+    sl = crys.sitelist(0)
+    for k in range(len(sh)):
+        jn = crys.jumpnetwork(0, sh[k] + 1e-4)
+        if len(jn) >= nmin: break
+    else:
+        return None
+    cut = sh[k] + 1e-4
+    data = ([1.0], [0.0], nprng.uniform(.3, 3, len(jn)).tolist(), nprng.uniform(.2, 2.5, len(jn)).tolist())
+    return Case("tri%dD-J%d" % (dim, len(jn)), crys, 0, cut, sl, jn, data, Nmax)
+
+
+def reloaded(g, crys):
+    """the calculator written to an (in-memory) HDF5 file and read back"""
+    import h5py, os
+    from onsager import GFcalc
+    f = h5py.File("c10_reload_%d.h5" % os.getpid(), "w", driver="core", backing_store=False)
+    try:
+        g.addhdf5(f.create_group("GF"))
+        return GFcalc.GFCrystalcalc.loadhdf5(crys, f["GF"])
+    finally:
+        f.close()
+
+
 HIST2 = ["square", "rect", "tria", "honeycomb", "sq2w"]
 HIST3 = ["sc", "fcc", "bcc", "tet", "ortho", "hcp", "diamond", "b2"]
 
@@ -388,7 +421,7 @@ def other_rates(case, rng, nprng):
             [max(bE2) + nprng.uniform(0.2, 2.5) for _ in bET])
 
 
-def evaluate(case, rng, nrand=6, npairs=8, history=0, nprng=None):
+def evaluate(case, rng, nrand=6, npairs=8, history=0, nprng=None, reload=False):
     """everything measured on one case.  history = k > 0: the calculator under test is ONE object that has already been given
     k other (non-uniformly different) rate sets through SetRates before the rates of the case; everything (equation, pairs,
     Coq evaluation) is then measured on that reused calculator, and its values must equal those of a fresh calculator."""
@@ -402,6 +435,12 @@ def evaluate(case, rng, nrand=6, npairs=8, history=0, nprng=None):
             g.SetRates(*other_rates(case, rng, nprng))
             g(0, 0, np.zeros(case.crys.dim))          # use it, as a caller would
         g.SetRates(*case.data)
+    if reload:
+        # the calculator under test is the SAVED AND RELOADED one (rates set after loading, as a user would)
+        from onsager import GFcalc
+        g0 = GFcalc.GFCrystalcalc(case.crys, case.chem, case.sl, case.jn, Nmax=case.Nmax)
+        g = reloaded(g0, case.crys)
+        g.SetRates(*case.data)
     lam = rng.choice([0.25, 3.0, 7.5])
     gs = case.calc(case.Nmax, scale=lam)
     pts = patch(case, g, rng, nrand)
@@ -413,8 +452,8 @@ def evaluate(case, rng, nrand=6, npairs=8, history=0, nprng=None):
     gmax = max(abs(v) for v in tab.values())
     D = case.exactD()
     far = far_field(case, g2, rng, D) if case.crys.dim == 3 else []
-    if history:
-        # the reused calculator against a fresh one with the same rates, at every tested endpoint (incl. a far one)
+    if history or reload:
+        # the reused / reloaded calculator against a fresh one with the same rates, at every tested endpoint (incl. a far one)
         keys = list(tab.keys())
         q = [max(1, int(p_) // 4) for p_ in g.kptgrid]
         keys.append((0, case.N - 1, tuple(q)))
@@ -425,7 +464,7 @@ def evaluate(case, rng, nrand=6, npairs=8, history=0, nprng=None):
 
 def run(ck):
     ck.rule = ("crystal pool (2-D and 3-D, named + random crystal systems, 1-3 Wyckoff sets, plus the two-network pyrope Mg sublattice) x "
-               "percolating cutoff x random energies/prefactors (half of the multi-jump-type cases and a dedicated tier of named lattices with >= 2 jump types use ONE calculator object reused across 1-3 earlier, non-uniformly different rate sets, compared with a fresh calculator; a sheared tier describes named crystals with a non-reduced primitive basis = lattice x random unimodular shear, noreduce=True, and compares with the reduced description) x patch of endpoints (all site pairs at the origin, unit cells, diagonal, "
+               "percolating cutoff x random energies/prefactors (half of the multi-jump-type cases and a dedicated tier of named lattices with >= 2 jump types use ONE calculator object reused across 1-3 earlier, non-uniformly different rate sets, compared with a fresh calculator; a sheared tier describes named crystals with a non-reduced primitive basis = lattice x random unimodular shear, noreduce=True, and compares with the reduced description; a reload tier saves triclinic / oblique one-site calculators with more than ten jump types to HDF5 and evaluates the reloaded object) x patch of endpoints (all site pairs at the origin, unit cells, diagonal, "
                "random cells up to a quarter of the k-mesh period); per case: residual of the diffusion equation at every patch point "
                "(numpy and exact in Coq) and its convergence under k-mesh refinement, swap / random space-group image / rate-scaling pairs, 3-D far field; distinct = distinct "
                "(crystal, cutoff, data); non-trivial = more than one patch point")
@@ -439,11 +478,13 @@ def run(ck):
     # history tier: one calculator object reused across several rate sets (named lattices with >= 2 jump types)
     plan += [("hist2", 4)] * ck.n(5, 30) + [("hist3", 2)] * ck.n(3, 16)
     terms, meta = [], []
-    stats = {"ratio_res_conv": [], "K_far": [], "pair_rel": [], "conv": [], "res": [], "history_rel": [], "ratio_refined": [], "ratio_sheared": [], "cross_description": []}
+    stats = {"ratio_res_conv": [], "K_far": [], "pair_rel": [], "conv": [], "res": [], "history_rel": [], "reload_rel": [], "ratio_refined": [], "ratio_sheared": [], "cross_description": []}
     skipped = {"no-network": 0, "sublattice-network": 0}
     nsample = 0
     # sheared tier: a named crystal in its reduced description and in a non-reduced (unimodular shear, noreduce=True) description
     plan += [("shear2", 4)] * ck.n(2, 16) + [("shear3", 4)] * ck.n(2, 12)
+    # reload tier: calculators with more than ten jump types saved to HDF5 and read back
+    plan += [("reload3", 2)] * ck.n(1, 4) + [("reload2", 4)] * ck.n(1, 4)
     work = []
     for spec, Nmax in plan:
         nr = ck.nprng(rng.randrange(1 << 30))
@@ -456,6 +497,12 @@ def run(ck):
                 skipped[pr] = skipped.get(pr, 0) + 1; continue
             work.append((pr[0], 0, Nmax, nr, ("shear-ref", None)))
             work.append((pr[1], 0, Nmax, nr, ("shear", pr[2])))
+            continue
+        if spec in ("reload2", "reload3"):
+            case = gen_manyjumps(rng, nr, 2 if spec == "reload2" else 3, Nmax)
+            if case is None:
+                skipped["no-network"] += 1; continue
+            work.append((case, 0, Nmax, nr, ("reload", None)))
             continue
         if spec in ("hist2", "hist3"):
             case = gen_case(rng, nr, 2 if spec == "hist2" else 3, Nmax, label="history")
@@ -476,7 +523,7 @@ def run(ck):
         rep = {"crystal": repr(case.crys), "chem": case.chem, "cutoff": case.cut, "Nmax": Nmax,
                "pre": case.data[0], "bE": case.data[1], "preT": case.data[2], "bET": case.data[3]}
         try:
-            ev = evaluate(case, rng, nrand=ck.n(6, 12), npairs=ck.n(8, 16), history=history, nprng=nr)
+            ev = evaluate(case, rng, nrand=ck.n(6, 12), npairs=ck.n(8, 16), history=history, nprng=nr, reload=(tag is not None and tag[0] == "reload"))
         except (ArithmeticError, ValueError, IndexError, ZeroDivisionError, np.linalg.LinAlgError) as e:
             ck.case(key=(case.label, round(case.cut, 5), case.data[0], case.data[3], Nmax), nontrivial=True, kind="exception:%dD-N%d" % (case.crys.dim, case.N))
             ck.violation("GFCrystalcalc raised %r for a valid crystal / network / rates (point group order %d)" % (e, len(case.crys.G)), rep,
@@ -485,6 +532,13 @@ def run(ck):
         worst = float(np.abs(ev["res"]).max())
         kind = "%s%dD-N%d-J%d-Nmax%d-nd%d-%s" % ("reused%d:" % history if history else "", case.crys.dim, case.N, len(case.jn), Nmax, ev["g"].Ndiff,
                                                 case.label.split("-")[0])
+        if tag is not None and tag[0] == "reload":
+            kind = "reloaded:" + kind
+            stats["reload_rel"].append(ev["hist"] / ev["gmax"])
+            ck.case(key=(case.label, round(case.cut, 5), case.data[2], "reload"), nontrivial=len(case.jn) > 10, kind="reload:" + kind)
+            if ev["hist"] > HIST_RTOL * ev["gmax"]:
+                ck.violation("a calculator saved with addhdf5 and reloaded with loadhdf5 returns G differing by %.3g (max|G| %.3g) from the "
+                             "original with the same rates (%d jump types)" % (ev["hist"], ev["gmax"], len(case.jn)), rep, key="c10-reload")
         if history:
             stats["history_rel"].append(ev["hist"] / ev["gmax"])
             ck.case(key=(case.label, round(case.cut, 5), case.data[0], case.data[3], "history", history), nontrivial=len(case.jn) >= 2, kind="history:" + kind)
